@@ -15,7 +15,7 @@ META = dict(
     text="All grid energies (64 quick, +1000 thorough), their 1e-6 neighbours and 8 reciprocal samplings are pushed through "
          "energy2wavelength, energy2sigma, relativistic_mass_correction, reciprocal_space_sampling_to_angular_sampling and "
          "Accelerator.wavelength/sigma and compared with formulas typed in with CODATA-2018 constants; monotonicity is checked on "
-         "every consecutive pair and every non-positive energy must be rejected at every entry point.",
+         "every consecutive pair and every non-positive energy must be rejected at every entry point. Every integer grid energy is also passed in 7 numeric representations, and a float64 call after a call in another representation must equal the float64 formula on the library's constants to 1e-12 (purity histories).",
     note="Bound: the energy grid. Tolerance 1e-6 relative (ase ships CODATA-2014, 8e-9 away), so a revision of constants cannot "
          "alarm while a formula error does.",
 )
